@@ -19,7 +19,8 @@ def stub_eval(net, **kwargs):
     m = net["_verif_matrix"]
     ins = net.line.in_service.values
     n = len(ins)
-    out = [i for i in range(n) if not ins[i]]
+    oos = m.get("oos", 99)
+    out = [i for i in range(n) if not ins[i] and i != oos]
     seen = net.get("_verif_seen")
     if seen is not None:
         seen.append([bool(x) for x in ins])
@@ -32,12 +33,17 @@ def stub_eval(net, **kwargs):
         with open(m["log"], "a") as f:
             f.write("%d %.6f %d\n" % (c, time.monotonic(), len(out)))
     if c == m["fail"]:
+        if m.get("fkind") == "lfnc":
+            from pandapower.powerflow import LoadflowNotConverged
+            raise LoadflowNotConverged("stub: case %d does not converge" % c)
         raise RuntimeError("stub: case %d fails" % c)
     if c == n:
         load = [1.0 + e for e in range(n)]
     else:
         load = [float(m["res"][c][e]) for e in range(n)]
         load[c] = float("nan") if m["own"] == 0 else 0.0
+    if oos < n:
+        load[oos] = float("nan")
     net["res_line"] = pd.DataFrame({"loading_percent": load}, index=net.line.index)
     net["res_bus"] = pd.DataFrame({"vm_pu": [(95 + (2 * c) % 11 + b) / 100.0 for b in range(2)]}, index=net.bus.index)
     net["converged"] = True
@@ -92,8 +98,9 @@ def project(res, net, seen=None):
     rl = net.res_line
     p["written_max"] = [num(x) for x in rl["max_loading_percent"].values] if "max_loading_percent" in rl else []
     p["written_min"] = [num(x) for x in rl["min_loading_percent"].values] if "min_loading_percent" in rl else []
-    p["restored"] = bool(net.line.in_service.all())
-    p["seen_ok"] = True if seen is None else all(sum(1 for x in s if not x) <= 1 for s in seen)
+    oos = net["_verif_matrix"].get("oos", 99)
+    p["restored"] = all(bool(x) == (i != oos) for i, x in enumerate(net.line.in_service.values))
+    p["seen_ok"] = True if seen is None else all(sum(1 for i, x in enumerate(s) if not x and i != oos) <= 1 for s in seen)
     return p
 
 
@@ -108,19 +115,24 @@ def observe(job):
     out = {"cfg": cfg, "has_par": False, "nprocs": job.get("nprocs", 0), "par": dict(EMPTY)}
     cases = {"line": {"index": list(cfg["order"])}}
     net = copy.deepcopy(base_net(cfg["n"]))
-    net["_verif_matrix"] = {"res": cfg["res"], "own": cfg["own"], "fail": cfg["fail"]}
+    net["_verif_matrix"] = {"res": cfg["res"], "own": cfg["own"], "fail": cfg["fail"], "fkind": cfg["fkind"], "oos": cfg["oos"]}
+    if cfg["oos"] < cfg["n"]:
+        net.line.at[cfg["oos"], "in_service"] = False
     seen = []
     net["_verif_seen"] = seen
     try:
         res = run_contingency(net, cases, contingency_evaluation_function=stub_eval)
         out["seq"] = project(res, net, seen)
     except Exception as e:  # noqa
-        out["seq"] = dict(EMPTY, err="%s: %s" % (type(e).__name__, str(e)[:100]), restored=bool(net.line.in_service.all()))
+        out["seq"] = dict(EMPTY, err="%s: %s" % (type(e).__name__, str(e)[:100]),
+                          restored=all(bool(x) == (i != cfg["oos"]) for i, x in enumerate(net.line.in_service.values)))
     if job.get("nprocs", 0) >= 1:
         out["has_par"] = True
         net2 = copy.deepcopy(base_net(cfg["n"]))
         log = "/tmp/ppverif_c15_%d_%d.log" % (os.getpid(), job["id"])
-        net2["_verif_matrix"] = {"res": cfg["res"], "own": cfg["own"], "fail": cfg["fail"], "log": log,
+        if cfg["oos"] < cfg["n"]:
+            net2.line.at[cfg["oos"], "in_service"] = False
+        net2["_verif_matrix"] = {"res": cfg["res"], "own": cfg["own"], "fail": cfg["fail"], "fkind": cfg["fkind"], "oos": cfg["oos"], "log": log,
                                  "sleep": {str(c): 0.012 * r for r, c in enumerate(job["completion"])}}
         try:
             res2 = run_contingency_parallel(net2, cases, contingency_evaluation_function=stub_eval, n_procs=job["nprocs"])
@@ -138,19 +150,24 @@ def observe(job):
     return out
 
 
-def enumerate_cfgs(v, nprocs=2):
+def enumerate_cfgs(v, nprocs=2, schedules=False):
+    """model-check Contingency.tla (all configurations x all worker schedules); returns (result, configurations, schedules)"""
     import os as _os, shutil, tempfile
     from ..tla import SPEC_DIR
     wd = tempfile.mkdtemp(prefix="ppverif_c14_")
     try:
-        cfg = open(_os.path.join(SPEC_DIR, "Contingency.cfg")).read().replace("NProcs = 2", "NProcs = %d" % nprocs)
-        open(_os.path.join(wd, "Contingency.cfg"), "w").write(cfg)
-        r = run_tlc("Contingency", "Contingency.cfg", workdir=wd, dump=True, timeout=3000)
+        for f in ("Contingency.cfg", "ContingencyInit.cfg"):
+            cfg = open(_os.path.join(SPEC_DIR, f)).read().replace("NProcs = 2", "NProcs = %d" % nprocs)
+            open(_os.path.join(wd, f), "w").write(cfg)
+        # the full state graph is only parsed where it is needed: the terminal states carry the completion orders
+        r = run_tlc("Contingency", "Contingency.cfg", workdir=wd, dump=schedules, dump_filter='phase = "aggregated"', timeout=3000)
+        sched = r.dump or []
+        ri = run_tlc("Contingency", "ContingencyInit.cfg", workdir=wd, dump=True, timeout=3000)
     finally:
         shutil.rmtree(wd, ignore_errors=True)
     for name, st, raw in r.violations:
         v.divergence("model-level: %s" % name, None)
-    return r
+    return r, [jsonable(s["cfg"]) for s in ri.dump], sched
 
 
 def key_of(name, c):
@@ -169,10 +186,12 @@ def run(tier, seed, replay=None, prop="C14"):
         states = trans = 1
         scheds = []
     else:
-        r = enumerate_cfgs(v, 2 if tier == "quick" else 3)
+        r, cfgs, sched = enumerate_cfgs(v, 2 if tier == "quick" else 3, schedules=(prop == "C15"))
         states, trans = r.distinct, r.transitions
-        cfgs = list({repr(jsonable(s["cfg"])): jsonable(s["cfg"]) for s in r.dump}.values())
-        scheds = list({(repr(jsonable(s["cfg"])), tuple(s["order_done"])) for s in r.dump if s["phase"] == "aggregated"})
+        scheds = list({(repr(jsonable(s["cfg"])), tuple(s["order_done"])) for s in sched})
+        if prop == "C14" and tier == "quick":       # quick: every 10-line configuration, a seeded half of the 3-line ones
+            small = [c for c in cfgs if c["n"] == 3]
+            cfgs = rnd.sample(small, len(small) // 2) + [c for c in cfgs if c["n"] > 3]
         jobs = [{"cfg": c, "id": k} for k, c in enumerate(cfgs)]
         if prop == "C15":
             # every worker count, completion orders taken from the schedules TLC explored
@@ -211,7 +230,7 @@ def run(tier, seed, replay=None, prop="C14"):
                 "n_procs >= 2 and an observed completion order different from task order")
     v.coverage = {
         "states": states + st["states"], "transitions": trans + st["generated"],
-        "traces_validated_against_impl": len(cases), "exhaustive": prop == "C14", "evaluations": len(cases),
+        "traces_validated_against_impl": len(cases), "exhaustive": prop == "C14" and tier == "thorough", "evaluations": len(cases),
         "distinct_nontrivial": nontriv, "rule": rule, "schedules_in_model": len(scheds),
         "samples": [{k: c[k] for k in ("cfg", "seq", "nprocs")} for c in (cases[0], cases[len(cases) // 2], cases[-1])],
     }
